@@ -486,7 +486,6 @@ func (t *distributedTarget) saveObject(obj object.Object, encObj encodedObject) 
 	var repProg *repProgress
 	var l *zap.Logger
 
-nextRule:
 	for i := range ruleNum {
 		ruleIdx := getRuleIdx(i)
 
@@ -495,30 +494,13 @@ nextRule:
 				continue
 			}
 
-			if slices.Contains(ecRules[:ecRuleIdx], ecRules[ecRuleIdx]) { // has already been processed, see below
-				continue
-			}
-
-			payloadParts := t.encodedECParts[ecRuleIdx]
-			fin, err := handleECRule(i, ruleIdx, ecRuleIdx, payloadParts, ecRules[ecRuleIdx])
+			// payload parts are encoded for every rule, a repeated one included
+			fin, err := handleECRule(i, ruleIdx, ecRuleIdx, t.encodedECParts[ecRuleIdx], ecRules[ecRuleIdx])
 			if err != nil {
 				return err
 			}
 			if fin {
 				break
-			}
-
-			for j := ecRuleIdx + 1; j < len(ecRules); j++ {
-				if ecRules[ecRuleIdx] != ecRules[j] {
-					continue
-				}
-				fin, err := handleECRule(i, len(repRules)+j, j, payloadParts, ecRules[ecRuleIdx])
-				if err != nil {
-					return err
-				}
-				if fin {
-					break nextRule
-				}
 			}
 
 			continue
